@@ -1,4 +1,5 @@
 import TantivyModel.Model.QuerySem
+import TantivyModel.Gen.FastRange
 /-
 C03 — which scorer a range over a u64-mapped fast-field column becomes: the value range is
 computed from the bounds and clamped to the column's minimum; an empty range gives `EmptyScorer`,
@@ -40,7 +41,8 @@ def valueRange (lo hi : BndN) (colMin colMax : Nat) : Option (Nat × Nat) :=
   | some st, some en => some (st, en)
   | _, _ => none
 
-/-- `search_on_u64_ff`; `full` = the column has exactly one value per document -/
+/-- `search_on_u64_ff`; `full` = the cardinality condition of the AllScorer shortcut holds (in the
+pinned code: the column has exactly one value per document; `classifyC` below follows the source) -/
 def classify (lo hi : BndN) (colMin colMax : Nat) (full : Bool) : Kind :=
   match valueRange lo hi colMin colMax with
   | none => .empty
@@ -54,5 +56,52 @@ def Kind.selects : Kind → Nat → Bool
   | .empty, _ => false
   | .all, _ => true
   | .range st en, v => decide (st ≤ v) && decide (v ≤ en)
+
+/-! ### documents, not values: the cardinality condition of the AllScorer shortcut
+
+A column is Full (exactly one value per document), Optional (at most one) or Multivalued (any
+number, *zero included*). `AllScorer` selects every document of the segment, also those that hold
+no value, so the shortcut is right only for cardinalities that exclude valueless documents. The
+extractor reads from `search_on_u64_ff` for which cardinalities the shortcut is taken
+(`extract/items/boolweight.py` → `Gen.FastRange`). -/
+
+inductive Card | full | optional | multivalued
+deriving Repr, DecidableEq, Inhabited
+
+/-- which value lists a document may hold under a cardinality -/
+def Card.admits : Card → List Nat → Prop
+  | .full, vs => vs.length = 1
+  | .optional, vs => vs.length ≤ 1
+  | .multivalued, _ => True
+
+/-- for which cardinalities "the range covers [column min, column max]" returns `AllScorer` -/
+structure Shortcut where
+  onFull : Bool
+  onOptional : Bool
+  onMultivalued : Bool
+deriving Repr, DecidableEq
+
+def Shortcut.on (s : Shortcut) : Card → Bool
+  | .full => s.onFull
+  | .optional => s.onOptional
+  | .multivalued => s.onMultivalued
+
+/-- `column.index.get_cardinality() == Cardinality::Full` -/
+def Shortcut.onlyFull : Shortcut := ⟨true, false, false⟩
+
+def Shortcut.extracted : Shortcut :=
+  ⟨Gen.RANGE_ALL_SHORTCUT_ON_FULL == 1, Gen.RANGE_ALL_SHORTCUT_ON_OPTIONAL == 1,
+   Gen.RANGE_ALL_SHORTCUT_ON_MULTIVALUED == 1⟩
+
+/-- `search_on_u64_ff` with the cardinality condition the source has -/
+def classifyC (sc : Shortcut) (lo hi : BndN) (colMin colMax : Nat) (card : Card) : Kind :=
+  classify lo hi colMin colMax (sc.on card)
+
+/-- does a document holding the values `vs` come out of the scorer? (`RangeDocSet`: one of its
+values lies in the range; `AllScorer`: always) -/
+def Kind.selectsDoc : Kind → List Nat → Bool
+  | .empty, _ => false
+  | .all, _ => true
+  | .range st en, vs => vs.any (fun v => decide (st ≤ v) && decide (v ≤ en))
 
 end TantivyModel.FastRange
